@@ -47,4 +47,16 @@ uint64_t wa_total_allocs(void);
 /* Route OpenSSL's allocator through the tracker (call first in main). */
 int wa_hook_openssl(void);
 
+/*
+ * Failpoint for the allocations OpenSSL makes through the hook above (its
+ * malloc and realloc calls; a counter of its own, independent of wa_enable /
+ * wa_fail_at).  OpenSSL's allocations are never refused unless armed here.
+ * wa_ossl_fail_at(k): the k-th attempt (1-based) counted since the last
+ * wa_ossl_reset_count() returns NULL, once; k = 0 disarms.
+ */
+uint64_t wa_ossl_count(void);
+void wa_ossl_reset_count(void);
+void wa_ossl_fail_at(uint64_t k);
+uint64_t wa_ossl_nfailed(void);
+
 #endif /* !WRAPALLOC_H_ */
